@@ -1446,6 +1446,9 @@ def run_walk_case(ctx, dag, idx, kb, fkey):
                  'ShardAccounts dictionary holds under the address', inp, got, ent)
     bad_acc, bad_mc = opaque_verdicts(libs, dag)
     ctx.expect_model(f'locacct {dag_str(dag)} {idx} {kb.hex()} {bad_acc} {bad_mc}', f'{got} {ent}', fkey + ' locate')
+    # the walk on the REGENERATED parsers (Generated/LocateSrc.lean + the C16 parser files): `eq` = it agrees with the hand model on this
+    # state cell (c11_src_walk), and the located cell / "raises" verdict is the library's (translator validation of the walk)
+    ctx.expect_model(f'srcloc {dag_str(dag)} {idx} {kb.hex()}', f'eq {got}', fkey + ' srcloc')
 
 
 # ----------------------------------------------------------------------------- run / replay
